@@ -128,6 +128,10 @@ func JunkValue(class string) (any, error) {
 		return (*WrongStruct)(nil), nil
 	case "nilre":
 		return (*regexp.Regexp)(nil), nil
+	case "nil_wide": // a typed nil pointer of the catalogue's own mapped pointer types
+		return (*catalog.Wide)(nil), nil
+	case "nil_sub":
+		return (*catalog.Sub)(nil), nil
 	case "func":
 		return func() {}, nil
 	case "chan":
@@ -611,6 +615,14 @@ func FromGo(x any, e *Embedding) (*Value, error) {
 			return &Value{K: "junk", S: "nilptr"}, nil
 		}
 		return &Value{K: "junk", S: "ptr"}, nil
+	case *catalog.Wide:
+		if x.(*catalog.Wide) == nil {
+			return &Value{K: "junk", S: "nil_wide"}, nil
+		}
+	case *catalog.Sub:
+		if x.(*catalog.Sub) == nil {
+			return &Value{K: "junk", S: "nil_sub"}, nil
+		}
 	}
 	return nil, inexp("value of type %T", x)
 }
@@ -734,7 +746,7 @@ func (r *Resolver) from(x any, s *Schema) (*Value, error) {
 		rv := reflect.ValueOf(x)
 		if lay.Pointer {
 			if rv.IsNil() {
-				return &Value{K: "junk", S: "nilptr"}, nil
+				return FromGo(x, r.E) // nil_wide / nil_sub
 			}
 			rv = rv.Elem()
 		}
